@@ -37,6 +37,15 @@ Theorem C11_old_canonicalize_not_idempotent_refuted :
   canonicalize true idem_order (canonicalize true idem_order idem_witness) <> canonicalize true idem_order idem_witness.
 Proof. exact canonicalize_old_not_idempotent. Qed.
 
+(* the canonicalizer before the repair ordered the variables of a term by the level of their name only: Y and +Y
+   (same name) kept their input order, so two presentations of one term had different canonical forms *)
+Theorem C11_old_same_name_variables_presentation_dependent_refuted :
+  let y := V 22 in let ystar := mkVar KVar 22 (Some true) [] in
+  canonicalize true [y] (EProb None [y; ystar] []) <> canonicalize true [y] (EProb None [ystar; y] []) /\
+  canonicalize false [y] (EProb None [y; ystar] []) = canonicalize false [y] (EProb None [ystar; y] []).
+Proof. vm_compute. split; [discriminate|reflexivity]. Qed.
+
+Print Assumptions C11_old_same_name_variables_presentation_dependent_refuted.
 Print Assumptions C11_sorting_is_idempotent.
 Print Assumptions C11_sorting_ignores_presentation_order.
 Print Assumptions C11_product_ignores_factor_order_partial.
